@@ -174,6 +174,19 @@ theorem function_imports_agree (g : PGraph) :
   intro r hr
   exact List.mem_append.mpr (Or.inl (funcs_req_G genFacts fg g hfg r hr))
 
+/-- The same when the graph carries extra requirements (`Graph.with_opset`). -/
+theorem function_imports_agree_with (extra : List Req) (g : PGraph) :
+    ∀ f ∈ (buildModelWith genFacts extra g).funcs, ∀ d,
+      lookup d f.1 = lookup d (buildModelWith genFacts extra g).imports := by
+  intro f hf d
+  simp only [buildModelWith, List.mem_map] at hf
+  obtain ⟨fg, hfg, rfl⟩ := hf
+  show lookup d (policy (reqGraph genFacts fg ++ policy (reqGraph genFacts g ++ extra))) =
+    lookup d (policy (reqGraph genFacts g ++ extra))
+  apply lookup_policy_absorb_policy
+  intro r hr
+  exact List.mem_append.mpr (Or.inl (funcs_req_G genFacts fg g hfg r hr))
+
 /-- …so every node inside a function (its graph and the bodies below it) is adapted against opsets that
     answer like the MODEL's imports. -/
 theorem function_nodes_see_model_imports (g : PGraph) :
